@@ -160,6 +160,20 @@ CLAIMS["C05"] = dict(
               "processor (not within reach: those functions are outside the subset); block tokens in non-decreasing line order; 'the source "
               "text at that position is the opening text'. A change to one of those is NOT detected by this check.")
 
+CLAIMS["C04"] = dict(
+    text="Proof of the nesting discipline at the places that create end tokens and shrink or rewind the block stack (a fragment of the "
+         "property): an EndMarkdownToken records the start token it closes and can only be built for a token that wants one "
+         "(EndMarkdownToken.__init__, both generators); in the parser end tokens are built only by those generators (structural); the "
+         "block stack is changed only by append / del [-1] (one structural obligation per mutation site) and every end token generated "
+         "from a stack entry comes from the top entry, which is then removed; __remove_top_element_from_stack removes exactly the top entry, "
+         "keeps everything below and returns the end token of that entry's markdown token; the LRD rewind leaves the stack exactly equal to "
+         "the surviving prefix or to the snapshot, entry for entry (loop invariants); after an emphasis pair is matched no delimiter "
+         "strictly inside the pair stays active, so pairs cannot cross (EmphasisHelper.__mark_used_tokens, loop invariant); container / "
+         "leaf / inline base classes fix the token class and containers always require an end token.",
+    note=TB + "NOT covered: that the parser calls these functions in an order that yields a balanced stream for every document (a "
+              "postcondition of the whole block pass, not within reach), that nothing is left open at the end of the document, that a "
+              "new-list-item token appears directly inside its list, link/image nesting, and the stacks kept by rules and generators.")
+
 NA = {
     "C01": "totality of the ~60 kLoC parser is a postcondition of TokenizedMarkdown.transform; no contract chain within reach without a Python deductive verifier (DESIGN.md 7)",
     "C02": "round-trip of parser + 5 kLoC regenerator needs the token stream specified as an encoding of the document (C03+C04+C05 in full) first (DESIGN.md 7)",
